@@ -102,19 +102,48 @@ theorem C20_nonbool_rejected_state_unchanged (c : Case) (st : St) (a : Arg) :
 
 /-! ## C20_honoured -/
 
+theorem iterB_id (n : Nat) (g : Bool → Bool) (b : Bool) (h : ∀ x, g x = x) : iterB n g b = b := by
+  induction n generalizing b with
+  | zero => rfl
+  | succ n ih => simp only [iterB, h, ih]
+
+/-- when callback bodies give the switch back as they found it (or there is no probing callback), the
+    validators step finds the switch as the call found it -/
+theorem guardRun_neutral (c : Case) (cls : Cls) (run : Bool) (h : ∀ b, bodyStep c b = b) :
+    guardRun c cls run = run := by
+  unfold guardRun; exact iterB_id _ _ _ h
+
+/-- **C20_construct_reads_switch_at_validators_step** (the fixed reading of "iff enabled"): a construction
+    runs pre-init hook, factories and converters, and then every validator of every field iff the switch is on
+    *at that moment*: the position the call found, moved by every switch operation the earlier callbacks of
+    the same construction performed (the probing callback's body, once per call of it among those callbacks,
+    up to a failing one).  A stale reading taken at the top of the call is excluded. -/
+theorem C20_construct_reads_switch_at_validators_step (c : Case) (hwf : wf c = true) (st st' : St) (k : Nat)
+    (cls : Cls) (hk : c.classes[k]? = some cls) :
+    (stepObs c st st' (.construct k)).events =
+      cutIds c.fault (constructPlan cls
+        (iterB (probeCount c (cutIds c.fault (beforePart cls))) (bodyStep c) st.run)) := by
+  have hI : C02.wf (initCase cls true c.fault) = true := by
+    unfold wf at hwf; simp only [Bool.and_eq_true, List.all_eq_true] at hwf
+    exact hwf.2 cls (List.mem_of_getElem? hk)
+  simp only [stepObs, hk, mkStep]
+  rw [← guardRun_eq c cls st.run hI]
+  exact (construct_spec cls _ c.fault hI).1
+
 /-- **C20_honoured_construct**: a construction runs every converter whatever the switch says and every
     validator of every field (in field order, `and_` members in order) iff validators are enabled; the first
     callback that raises ends it and its exception propagates.  For arbitrary field lists, through the
-    shared initializer model. -/
-theorem C20_honoured_construct (c : Case) (hwf : wf c = true) (st st' : St) (k : Nat) (cls : Cls)
-    (hk : c.classes[k]? = some cls) :
+    shared initializer model.  (Callback bodies that do not leave the switch flipped; the general case is
+    `C20_construct_reads_switch_at_validators_step`.) -/
+theorem C20_honoured_construct (c : Case) (hwf : wf c = true) (hn : ∀ b, bodyStep c b = b) (st st' : St)
+    (k : Nat) (cls : Cls) (hk : c.classes[k]? = some cls) :
     (stepObs c st st' (.construct k)).events = cutIds c.fault (constructPlan cls st.run) ∧
     (stepObs c st st' (.construct k)).exc =
       (if hitsIds c.fault (constructPlan cls st.run) then some .user else none) := by
   have hI : C02.wf (initCase cls true c.fault) = true := by
     unfold wf at hwf; simp only [Bool.and_eq_true, List.all_eq_true] at hwf
     exact hwf.2 cls (List.mem_of_getElem? hk)
-  simp only [stepObs, hk, mkStep]
+  simp only [stepObs, hk, mkStep, guardRun_neutral c cls st.run hn]
   exact construct_spec cls st.run c.fault hI
 
 /-- **C20_honoured_assign**: an assignment runs the hooks the field is subject to (its own `on_setattr`,
@@ -239,12 +268,12 @@ theorem C20_construct_callbacks (cls : Cls) (run : Bool) (hn : (cls.fields.map (
 
 /-- enabled and nothing fails ⇒ *all* validators of *all* fields fire on construction and in `validate()` -/
 theorem C20_enabled_all_fire (c : Case) (hwf : wf c = true) (st st' : St) (hr : st.run = true)
-    (hf : c.fault = none) (k : Nat) (cls : Cls) (hk : c.classes[k]? = some cls) :
+    (hf : c.fault = none) (hn : ∀ b, bodyStep c b = b) (k : Nat) (cls : Cls) (hk : c.classes[k]? = some cls) :
     (stepObs c st st' (.construct k)).events =
       beforePart cls ++ validatorPlan (cls.fields.filter Field.participates) ++ afterPart cls ∧
     (stepObs c st st' (.validate k)).events = validatorPlan cls.fields ∧
     (stepObs c st st' (.construct k)).exc = none ∧ (stepObs c st st' (.validate k)).exc = none := by
-  have h1 := C20_honoured_construct c hwf st st' k cls hk
+  have h1 := C20_honoured_construct c hwf hn st st' k cls hk
   have h2 := C20_honoured_validate c st st' k cls hk
   rw [hf] at h1 h2
   simp only [hitsIds_none, cutIds_of_not_hits _ _ (hitsIds_none _), Bool.false_eq_true, if_false, hr,
@@ -276,7 +305,8 @@ theorem C20_define_default_assign (cls : Cls) (run : Bool) (f : Field)
     construction and assignment still run converters and hooks, `validate()` runs nothing. -/
 theorem C20_block_silences_validators (c : Case) (hwf : wf c = true) (st : St) (body : List Op) (d' : Nat)
     (hb : bal 0 body = some d')
-    (hno : ∀ op ∈ body, (∀ a, op ≠ .setDisabled a) ∧ (∀ a, op ≠ .setRun a)) :
+    (hno : ∀ op ∈ body, (∀ a, op ≠ .setDisabled a) ∧ (∀ a, op ≠ .setRun a))
+    (hn : ∀ b, bodyStep c b = b) :
     ∀ k cls, c.classes[k]? = some cls →
     ((stepObs c (runSt st (.enter :: body)) (runSt st (.enter :: body)) (.construct k)).events.filter isValidator = []) ∧
     ((stepObs c (runSt st (.enter :: body)) (runSt st (.enter :: body)) (.validate k)).events = []) ∧
@@ -286,7 +316,7 @@ theorem C20_block_silences_validators (c : Case) (hwf : wf c = true) (st : St) (
   generalize runSt st (.enter :: body) = s at hr
   intro k cls hk
   refine ⟨?_, ?_, ?_⟩
-  · rw [(C20_honoured_construct c hwf s s k cls hk).1, hr]
+  · rw [(C20_honoured_construct c hwf hn s s k cls hk).1, hr]
     exact filter_cutIds_nil _ _ _ (C20_disabled_no_validator cls default).1
   · rw [(C20_honoured_validate c s s k cls hk).1, hr]; rfl
   · intro i f hf
@@ -332,7 +362,7 @@ theorem C20_matcher_is_dyck (body rest : List (Op × Bool)) (r : Bool)
 theorem C20_model_meets_spec (c : Case) (hwf : wf c = true) : spec c (model c) = true := by
   unfold wf at hwf
   simp only [Bool.and_eq_true, List.all_eq_true] at hwf
-  obtain ⟨⟨⟨⟨hb, ha⟩, ⟨⟨⟨hbb, hbo⟩, _⟩, _⟩⟩, _⟩, hI⟩ := hwf
+  obtain ⟨⟨⟨⟨hb, ha⟩, ⟨⟨hbb, hbo⟩, _⟩⟩, _⟩, hI⟩ := hwf
   have hbb' : (bal 0 c.body).isSome = true := by
     have : bal 0 c.body = some 0 := by simpa using hbb
     simp [this]
@@ -345,48 +375,59 @@ theorem C20_model_meets_spec (c : Case) (hwf : wf c = true) : spec c (model c) =
 
 /-- **C20_callbacks_see_callers_switch**: whatever a callback does while it runs on behalf of a construction,
     an assignment or `validate()` — read the getters, construct / assign / validate other instances, open a
-    `disabled()` block of its own — it observes exactly what the same operations would observe as a history of
-    their own started from the switch position the outer operation found: the outer operation does not move
-    the switch on the way to (or around) its callbacks. -/
+    `disabled()` block of its own, call a setter — it observes exactly what the same operations would observe
+    as a history of their own started from the switch position the outer operation found, moved only by the
+    earlier runs of such bodies during the same operation: the outer operation itself does not move the switch
+    on the way to (or around) its callbacks. -/
 theorem C20_callbacks_see_callers_switch (c : Case) (st : St) (op : Op) :
-    ∀ inv ∈ nestedOf c st op, inv = (model { c with start := st.run, ops := c.body }).steps := by
+    ∀ inv ∈ nestedOf c st op, ∃ j,
+      inv = (model { c with probe := none, start := iterB j (bodyStep c) st.run, ops := c.body }).steps := by
   intro inv hinv
   unfold nestedOf at hinv
-  cases hp : c.probe with
-  | none => simp [hp] at hinv
-  | some p =>
-    simp only [hp] at hinv
-    rw [List.eq_of_mem_replicate hinv]
-    simp only [model, St.init, runBody]
-    apply runOpsWith_congr <;> rfl
+  obtain ⟨j, _, rfl⟩ := List.mem_map.1 hinv
+  refine ⟨j, ?_⟩
+  simp only [model, St.init, runBody]
+  apply runOpsWith_congr <;> rfl
 
-/-- in particular a getter called first thing inside any callback returns the caller's switch position -/
+/-- in particular, with bodies that give the switch back as they found it, a getter called first thing inside
+    any callback returns the caller's switch position -/
 theorem C20_getter_inside_callback (c : Case) (st : St) (op : Op) (rest : List Op)
-    (hb : c.body = .getRun :: rest) :
+    (hb : c.body = .getRun :: rest) (hn : ∀ b, bodyStep c b = b) :
     ∀ inv ∈ nestedOf c st op, (inv.head?).map (·.ret) = some (some (B3.ofBool st.run)) := by
   intro inv hinv
-  rw [C20_callbacks_see_callers_switch c st op inv hinv]
-  simp [model, St.init, hb, runOpsWith, stepObs, mkStep]
+  obtain ⟨j, rfl⟩ := C20_callbacks_see_callers_switch c st op inv hinv
+  simp [model, St.init, hb, runOpsWith, stepObs, mkStep, iterB_id _ _ _ hn]
+
+theorem runSt_no_switch_ops (l : List Op) (st : St)
+    (h : ∀ o ∈ l, (∀ a, o ≠ .setDisabled a) ∧ (∀ a, o ≠ .setRun a) ∧ o ≠ .enter ∧ o ≠ .exit ∧ o ≠ .exitExc) :
+    runSt st l = st := by
+  induction l generalizing st with
+  | nil => rfl
+  | cons o l ih =>
+    have ho := h o List.mem_cons_self
+    have h1 : stepSt st o = st := by cases o <;> first | rfl | (exfalso; simp at ho)
+    have : runSt st (o :: l) = runSt (stepSt st o) l := rfl
+    rw [this, h1]
+    exact ih st (fun o' ho' => h o' (List.mem_cons_of_mem _ ho'))
 
 /-- **C20_switch_moves_only_by_switch_ops**: an operation other than the two setters, `enter` and the two
     exits leaves the cell and every saved entry state exactly as they were — as seen after the operation
-    (`stepSt`) and, by `C20_callbacks_see_callers_switch`, as seen from inside every callback it runs; and a
-    well-formed callback body as a whole gives the switch back as it found it. -/
+    (`stepSt`) and, by `C20_callbacks_see_callers_switch`, as seen from inside every callback it runs — and a
+    callback body that itself contains none of those five operations leaves the cell where it was, so that
+    nothing but switch operations (wherever they are called from) ever moves the switch. -/
 theorem C20_switch_moves_only_by_switch_ops (c : Case) (st : St) (op : Op)
     (hop : (∀ a, op ≠ .setDisabled a) ∧ (∀ a, op ≠ .setRun a) ∧ op ≠ .enter ∧ op ≠ .exit ∧ op ≠ .exitExc) :
     stepSt st op = st ∧
     (stepObs c st (stepSt st op) op).run = B3.ofBool st.run ∧
-    (wf c = true → ∀ b, (runSt { run := b, stack := [] } c.body).run = b) := by
+    ((∀ o ∈ c.body, (∀ a, o ≠ .setDisabled a) ∧ (∀ a, o ≠ .setRun a) ∧ o ≠ .enter ∧ o ≠ .exit ∧ o ≠ .exitExc) →
+      ∀ b, bodyStep c b = b) := by
   refine ⟨?_, ?_, ?_⟩
   · cases op <;> first | rfl | (exfalso; simp at hop)
   · have h : stepSt st op = st := by cases op <;> first | rfl | (exfalso; simp at hop)
     rw [(stepObs_views c st (stepSt st op) op).1, h]
-  · intro hwf b
-    unfold wf at hwf
-    simp only [Bool.and_eq_true, beq_iff_eq] at hwf
-    cases b
-    · exact hwf.1.1.2.2
-    · exact hwf.1.1.2.1.2
+  · intro hb b
+    unfold bodyStep
+    rw [runSt_no_switch_ops c.body _ hb]
 
 /-! ## What `C20_restore` excludes: the context manager before ee5b683 -/
 
@@ -451,6 +492,27 @@ example : (model sampleCase).nested.map List.length = [1, 1, 1, 0, 0, 0, 0, 0, 0
 
 example : ((model sampleCase).nested.head?.bind List.head?).map (fun inv => inv.map (fun s => (s.run, s.ret, s.events.length)))
     = some [(.t, some .t, 0), (.f, none, 0), (.t, none, 0), (.t, none, 3), (.t, none, 0), (.t, none, 1)] := by decide
+
+/-- a converter that disables validation: the validators of the same construction do not run (and the other
+    way round for a factory that re-enables inside an outer `disabled()` block) — the switch is read at the
+    validators step -/
+def flipCase : Case :=
+  { classes := [
+      { isDefine := true, clsOnSet := .unset, kwOnly := true, pre := .none, post := false,
+        fields := [{ name := "x", validators := 1, conv := true, onSet := .unset, init := true, dflt := .none },
+                   { name := "d", validators := 1, conv := false, onSet := .unset, init := true,
+                     dflt := .factory false }] }],
+    fault := none, probe := some { kind := "conv", field := "x", idx := 0 }, body := [.setDisabled .T],
+    start := true, ops := [.construct 0, .validate 0] }
+
+example : wf flipCase = true := by decide
+
+example : (model flipCase).steps.map (·.events) =
+    [[⟨"conv", "x", 0⟩, ⟨"factory", "d", 0⟩], [⟨"validator", "x", 0⟩, ⟨"validator", "d", 0⟩]] := by decide
+
+example : (model { flipCase with probe := some { kind := "factory", field := "d", idx := 0 },
+                                 body := [.setRun .T], start := false }).steps.map (·.events) =
+    [[⟨"conv", "x", 0⟩, ⟨"factory", "d", 0⟩, ⟨"validator", "x", 0⟩, ⟨"validator", "d", 0⟩], []] := by decide
 
 /-- an `init=False` field with a default factory and a validator: constructed and validated iff enabled -/
 def initFalseCls : Cls :=
